@@ -722,7 +722,7 @@ func init() {
 func init() {
 	register(&Check{
 		ID: "C11", Level: "exploration",
-		Rule:        "shutdown scenarios: state at shutdown begin drawn from a conformance prefix (running multi-task jobs with a subset of tasks done, waiting, delayed-pending, finished jobs) x graceful / forced (deadline 0-1.5 ms) x clients racing the shutdown (schedule directly and via POST /pipelines/schedule, cancel, SaveToStore, snapshots) x a store whose Save takes 0.2-2 ms (saves in flight when Shutdown returns) x a finisher that lets tasks end one at a time (later tasks of multi-task jobs must still be launched during a graceful shutdown). Oracles keyed on the Shutdown return event R: every job terminal and none executing at R; no run-enter without run-exit at R and none after R; reported state deep-equal at R and after all in-flight saves have landed; the LAST snapshot that reached the store equals the state at R; no request issued after R accepted (503 over HTTP); requests accepted during the shutdown terminal at R; graceful: jobs running at begin are never told to stop and run all remaining tasks to success, waiting jobs end canceled without running; forced: everything terminal. Every 20th scenario runs on the real JsonDataStore whose directory is away during one or two saves (they fail), comes back, and the runner is shut down: a fresh store instance must load the final state. First cases: the persist loop - an acknowledged schedule / cancel / completion must be carried by a save within 10 s (period 3 s) counted in heartbeats of the harness process, also with a 200 ms Save so that changes land during a save. A situation is (forced, slowSave, clients, #running, #waiting, #finished at begin) and what was observed (request accepted during shutdown, save landing after return, ...)",
+		Rule:        "shutdown scenarios: state at shutdown begin drawn from a conformance prefix (running multi-task jobs with a subset of tasks done, waiting, delayed-pending, finished jobs) x graceful / forced (deadline 0-1.5 ms) x clients racing the shutdown (schedule directly and via POST /pipelines/schedule, cancel, SaveToStore, snapshots) x a store whose Save takes 0.2-2 ms (saves in flight when Shutdown returns) x a finisher that lets tasks end one at a time (later tasks of multi-task jobs must still be launched during a graceful shutdown). Oracles keyed on the Shutdown return event R: every job terminal and none executing at R; no run-enter without run-exit at R and none after R; reported state deep-equal at R and after all in-flight saves have landed; the last snapshot the store had COMPLETED at R, and the last one that reached it in the end, equal the state at R (directed: a save held inside a slow store and 0-2 further SaveToStore calls waiting for their turn while the shutdown is issued - Shutdown must not return before its own final save was written); no request issued after R accepted (503 over HTTP); requests accepted during the shutdown terminal at R; graceful: jobs running at begin are never told to stop and run all remaining tasks to success, waiting jobs end canceled without running; forced: everything terminal. Every 20th scenario runs on the real JsonDataStore whose directory is away during one or two saves (they fail), comes back, and the runner is shut down: a fresh store instance must load the final state. First cases: the persist loop - an acknowledged schedule / cancel / completion must be carried by a save within 10 s (period 3 s) counted in heartbeats of the harness process, also with a 200 ms Save so that changes land during a save. A situation is (forced, slowSave, clients, #running, #waiting, #finished at begin) and what was observed (request accepted during shutdown, save landing after return, ...)",
 		Assumptions: []string{seqAssumption, "the persist-interval clause is inherently timed: limit 10 s for a 3 s period, measured in heartbeats so that a stalled machine stalls the clock"},
 		Cases:       func(t string) int { return tierN(t, 6, 40) + tierN(t, 4, 24) + tierN(t, 400, 9000) },
 		RunCase: func(c *CaseCtx) *CaseResult {
@@ -763,6 +763,10 @@ func init() {
 			if k%20 == 19 {
 				// escalation: a forced shutdown while a graceful one is still waiting
 				return simpleCase(c, drv.RunShutdownDirectedCase(c.Seed, 1), 50)
+			}
+			if k%40 == 4 {
+				// a save inside a slow store, more saves waiting for their turn, then the shutdown: its final save has to wait too
+				return simpleCase(c, drv.RunShutdownWithSavesInFlightCase(int64(k/40)), 3)
 			}
 			o := drv.ShutdownOpts{Forced: k%2 == 1, SlowSave: (k/2)%2 == 0, Clients: (k/4)%4 != 3, HTTP: (k/16)%2 == 0, NoStore: k%32 == 31, NoFinisher: k%2 == 1 && (k/8)%2 == 0}
 			return simpleCase(c, drv.RunShutdownCase(c.Seed, o), 150)
